@@ -43,6 +43,8 @@ def fieldset():
             t_f=FM(dimensions=T, description='opt float', units='u', required=False),
             t_i=FM(dimensions=T, field_type=np.int32, description='opt int', units='u', required=False),
             t_s=FM(dimensions=T, field_type=str, description='opt str', units='u', required=False),
+            t_fd=FM(dimensions=T, description='opt float with default', units='u', required=False, default=2.5),
+            t_id=FM(dimensions=T, field_type=np.int32, description='opt int with default', units='u', required=False, default=0),
             t_req=FM(dimensions=T, description='req float', units='u'),
             tp_f=FM(description='pointwise float', units='u'),
             tp_i=FM(field_type=np.int32, description='pointwise int', units='u'),
@@ -54,6 +56,10 @@ def fieldset():
         )
         _registered = True
     return FieldSet.from_registry('vc_codec')
+
+
+UNTOUCHED = object()  # never assigned: the container holds the declared default
+DEFAULTS = {'t_fd': 2.5, 't_id': 0}
 
 
 def val(f, t, sp):
@@ -70,6 +76,8 @@ def values_for(case, t, n):
         't_f': None if 't_f' in case['unset'] else 0.5 + t,
         't_i': None if 't_i' in case['unset'] else 7 + t,
         't_s': None if 't_s' in case['unset'] else f's{t}',
+        't_fd': {'set': 3.5 + t, 'none': None, 'untouched': UNTOUCHED}[case['dflt'][t - 1]],
+        't_id': {'set': 11 + t, 'none': None, 'untouched': UNTOUCHED}[case['dflt'][t - 1]],
         't_req': 9.25 * t,
         'tp_f': np.arange(n, dtype=float) * 0.5 + t,
         'tp_i': np.arange(n, dtype=np.int32) + t,
@@ -86,8 +94,10 @@ def build(case, t):
     traj = make_payload(t, 0)
     traj.add_fields(fieldset())
     for k, x in values_for(case, t, len(traj)).items():
-        if x is not None:
-            setattr(traj, k, x)
+        if x is UNTOUCHED:
+            continue
+        if x is not None or k in DEFAULTS:
+            setattr(traj, k, x)  # default-bearing fields are explicitly given None
     return traj
 
 
@@ -102,6 +112,8 @@ def compare(case, t, got):
         out.append(('base', 'differs', str(base)))
     want = values_for(case, t, len(got))
     for k, w in want.items():
+        if w is UNTOUCHED:
+            w = DEFAULTS[k]
         try:
             g = getattr(got, k)
         except Exception as e:
@@ -149,7 +161,7 @@ def compare(case, t, got):
             else:
                 if float(g) != float(w):
                     out.append((k, 'value', f'read {g!r}; written {w!r}'))
-                if k == 't_i' and not isinstance(g, (int, np.integer)):
+                if k in ('t_i', 't_id') and not isinstance(g, (int, np.integer)):
                     out.append((k, 'dtype', f'integer field read back as {type(g).__name__}'))
     return out
 
@@ -202,7 +214,7 @@ def run_case(case):
 
                 def mapping(traj):
                     t = ident(traj, False)['p']
-                    return Assoc(values_for(case, t, len(traj)))
+                    return Assoc({k: (DEFAULTS[k] if x is UNTOUCHED else x) for k, x in values_for(case, t, len(traj)).items()})
 
                 ts.create_associated(assoc, ['vc_codec'], mapping)
                 open_kw = {'associated_files': [assoc]}
@@ -262,7 +274,7 @@ def neg_control(ctx, sub, expect):
 def run(ctx: Ctx):
     ctx.rule = (
         'cases = species subsets for 4 species-indexed fields (TS, TS, TSP, TSM) x second-trajectory selector x unset pattern of 3 optional '
-        'scalars x 5 file layouts; exhaustive over the 2-species universe {CO2, NOx} (gap in the enum), seeded random over {CO2, HC, NOx, SO4}; '
+        'scalars x set/None/never-assigned pattern of 2 default-bearing optional scalars x 5 file layouts; exhaustive over the 2-species universe {CO2, NOx} (gap in the enum), seeded random over {CO2, HC, NOx, SO4}; '
         'non-trivial = file species list has a gap w.r.t. the Species enumeration or fields carry different species sets'
     )
     ctx.assumptions += [
@@ -275,7 +287,8 @@ def run(ctx: Ctx):
         tlc.check(ctx, 'codec/Codec', 'codec/MC_Codec.cfg')
         neg_control(ctx, {'Design = "filepos"': 'Design = "enumpos"'}, 'Invariant NoWriteError is violated')
         neg_control(ctx, {'ReadRule = "written"': 'ReadRule = "all"'}, 'Invariant RoundTrip is violated')
-        ctx.extra['negative_controls'] = 'Design=enumpos violates NoWriteError; ReadRule=all violates RoundTrip (as expected)'
+        neg_control(ctx, {'ScalarRule = "fill_is_unset"': 'ScalarRule = "fill_is_default"'}, 'Invariant ScalarRoundTrip is violated')
+        ctx.extra['negative_controls'] = 'Design=enumpos violates NoWriteError; ReadRule=all violates RoundTrip; ScalarRule=fill_is_default violates ScalarRoundTrip (as expected)'
         gen = tlc.check(ctx, 'codec/CodecGen', 'codec/Gen_Codec.cfg', workers=8)
         cases = gen['emitted']
         n = 300 if ctx.quick else 6000
